@@ -3,6 +3,7 @@
 package transmit
 
 import (
+	"context"
 	"encoding/json"
 	"errors"
 	"io"
@@ -218,4 +219,49 @@ func Harness_C26_sendbatch() {
 	}
 	zz.Assert(verifUp.calls <= 2*n, "at most two attempts per sub-batch")
 	zz.Assert(delivered <= sendable, "no event is delivered twice")
+}
+
+// C26 / C19 (destinations): two events with symbolic API key and dataset (0..2 bytes each) and one
+// of two hosts are enqueued; whatever is batched together shares host, key and dataset (sendBatch, checked above, addresses a
+// batch by its first event), and each event is in exactly one batch.
+func Harness_C26_C19_destinations() {
+	zz.MustCover("(*github.com/honeycombio/refinery/transmit.DirectTransmission).EnqueueEvent")
+	zz.Bound("events", 2)
+	zz.Bound("key_len", 2)
+	zz.Bound("dataset_len", 2)
+	clk := &verifSleepClock{now: time.Unix(1700000000, 0)}
+	met := &verifUpDown{name: "q"}
+	d := &DirectTransmission{Config: &config.MockConfig{}, Logger: &logger.NullLogger{}, Metrics: met, Clock: clk, maxBatchSize: 100,
+		eventBatches: map[transmitKey]*eventBatch{}, httpClient: &http.Client{Transport: verifTransport{}}, userAgent: "verif"}
+	d.metricKeys.updownQueuedItems = "q"
+	hosts := []string{"https://api.honeycomb.io", "http://peer:8081"}
+	var evs []*types.Event
+	for i := 0; i < 2; i++ {
+		ev := &types.Event{Context: context.Background(), APIHost: hosts[zz.Choose("host", 2)], APIKey: zz.NondetString("apiKey", 2),
+			Dataset: zz.NondetString("dataset", 2), SampleRate: 1, Timestamp: time.Unix(1700000000, 0)}
+		if zz.InEngine() {
+			ev.Data.MetaSpanCount = 100
+		} else {
+			ev.Data = types.NewPayload(&config.MockConfig{}, map[string]any{"f": "x"})
+		}
+		evs = append(evs, ev)
+		d.EnqueueEvent(ev)
+	}
+	seen := [2]int{}
+	for _, b := range d.eventBatches {
+		if len(b.events) == 0 {
+			continue
+		}
+		first := b.events[0]
+		for _, ev := range b.events {
+			zz.Assert(zz.And(ev.APIHost == first.APIHost, zz.And(ev.APIKey == first.APIKey, ev.Dataset == first.Dataset)),
+				"events batched together share host, API key and dataset")
+			for i := range evs {
+				if ev == evs[i] {
+					seen[i]++
+				}
+			}
+		}
+	}
+	zz.Assert(zz.And(seen[0] == 1, seen[1] == 1), "every enqueued event is in exactly one batch")
 }
